@@ -83,6 +83,46 @@ func simParseAfter(ctx *Ctx, before []string, src string, strategy int) *parseOu
 	return out
 }
 
+// simParsePair parses two texts concurrently, each task with its own notation,
+// in one cold-started simulation: ParseSource must be total for every caller,
+// also when another caller is inside it at the same time.
+func simParsePair(ctx *Ctx, srcs [2]string, strategy int) ([2]*parseOutcome, *simrt.Result) {
+	outs := [2]*parseOutcome{{}, {}}
+	res := ctx.Sim(func(c *simrt.Config) {
+		c.Strategy = strategy
+		c.StepCap = 400000
+	}, func() {
+		var wg simrt.WaitGroup
+		for i := 0; i < 2; i++ {
+			i := i
+			wg.Add(1)
+			simrt.GoNamed(fmt.Sprintf("caller%d", i), func() {
+				defer wg.Done()
+				out := outs[i]
+				defer func() {
+					out.MainDone = true
+					if out.Returned {
+						return
+					}
+					r := recover()
+					out.PanicVal = r
+					out.PanicStr = fmt.Sprint(r)
+					if _, ok := r.(runtime.Error); ok {
+						out.IsRuntime = true
+						buf := make([]byte, 4096)
+						out.Stack = string(buf[:runtime.Stack(buf, false)])
+					}
+				}()
+				out.Value = cdcn.Notation().Make().ParseSource(srcs[i])
+				out.Returned = true
+			})
+		}
+		wg.Wait()
+	})
+	outs[0].Res, outs[1].Res = res, res
+	return outs, res
+}
+
 // ---- C11 --------------------------------------------------------------------------------------
 
 type propC11 struct{}
